@@ -17,7 +17,7 @@ MANIFEST = dict(
          "`self.changes = []` reset, the for-else clear, ack-before-parse, counter kind), so removing the reset or changing a slice changes the Lean term. "
          "Tie: translator facts + differential correspondence of the real long-lived handler objects (async via the real consume task on the virtual loop; "
          "threaded via stepped dispatch on a real GeckoSpa) + a sequential reference block kept by the harness (search)."
-         ' Since session 3: partial updates carry overlapping neighbour records (p, p+-1, p). Session 4: histories contain partial updates that arrive while a request holds the protocol lock (busy windows): application stays in arrival order and every update is acknowledged. The acknowledging handler and the apply callback of the awaitable client have no suspension point (partial_update_never_suspends over the regenerated skeletons; no_suspension_no_aw: every trace is one atomic block). Histories with a byte-identical report repeated after a refresh overwrote its positions; partial_update_path_state_inventory.',
+         ' Since session 3: partial updates carry overlapping neighbour records (p, p+-1, p). Session 4: histories contain partial updates that arrive while a request holds the protocol lock (busy windows): application stays in arrival order and every update is acknowledged. The acknowledging handler and the apply callback of the awaitable client have no suspension point (partial_update_never_suspends over the regenerated skeletons; no_suspension_no_aw: every trace is one atomic block). Histories with a byte-identical report repeated after a refresh overwrote its positions; partial_update_path_state_inventory. Real refresh exchanges on the wire with a partial update queued just ahead of the answer, at several phases of the two pollers.',
     note="Trusted: Lean kernel, translator, correspondence harness. asyncio: no other task runs between async_handle and async_handled (neither suspends). "
          "Malformed STATP bodies (short records) and observers that raise inside the threaded callback are outside the property's quantifier and the model. "
          "A STATQ arriving at the client is outside the quantifier too (the async handler would then re-apply its last change list).",
@@ -52,6 +52,14 @@ def gen_history(rng, n):
         off = max(0, p - 1)
         ev.append(("refresh", off, bytes((b ^ 0x3C) for b in bytes(8))[:1024 - off]))
         ev.append(("statp", list(rec)))
+    if rng.random() < 0.7:
+        # a partial update that arrives just AHEAD of the answer to a refresh of an overlapping range (both queued together), at
+        # several phases of the two pollers' cycles
+        for delay_ms in rng.sample([105, 120, 135, 150, 165, 180, 195], 3):
+            p = rng.choice(hot)
+            off = max(0, p - rng.randrange(0, 3))
+            ev.append(("wire", [(p, bytes([rng.randrange(256), rng.randrange(256)]))], off,
+                       bytes(rng.randrange(256) for _ in range(rng.choice([4, 8, 39])))[:1024 - off], delay_ms, rng.choice([0, 23, 37, 64, 91])))
     for _ in range(n):
         r = rng.random()
         if r < 0.62:
@@ -135,6 +143,32 @@ class AsyncRig:
         if self.task.done():
             return "err:consumer-died:" + type(self.task.exception()).__name__
 
+    async def wire_refresh(self, body, off, seg, delay=0.15, pre=0.0):
+        """a REAL refresh exchange (GeckoAsyncStructure.get: STATU out, one STATV in) with a partial update arriving just ahead of the
+        answer: both datagrams are in the receive queue, the STATP first, before either the refresh waiter or the partial consumer runs"""
+        from geckolib.driver.protocol.statusblock import GeckoStatusBlockProtocolHandler
+        n = [0]
+
+        def mk():
+            n[0] += 1
+            return GeckoStatusBlockProtocolHandler.request(n[0], off, len(seg), parms=SENDER)
+        await asyncio.sleep(pre)            # shifts the refresh waiter's polling phase against the partial consumer's
+        g = asyncio.ensure_future(self.spa.struct.get(self.proto, mk, 1))
+        await asyncio.sleep(delay)          # where in the two pollers' 0.1 s cycles the pair arrives decides who looks at the queue first
+        fr = GeckoStatusBlockProtocolHandler.response(0, 0, seg, parms=SENDER).send_bytes
+        content = fr[fr.index(b"<DATAS>") + 7:fr.rindex(b"</DATAS>")]
+        self.proto.datagram_received(b"STATP" + body, SENDER)
+        self.proto.datagram_received(content, SENDER)
+        try:
+            ok = await asyncio.wait_for(g, 10)
+        except Exception as e:  # noqa
+            return "err:refresh:" + type(e).__name__
+        await asyncio.sleep(0.4)
+        if ok is not True:
+            return "err:refresh-failed"
+        if self.task.done():
+            return "err:consumer-died:" + type(self.task.exception()).__name__
+
     def show(self):
         acks = [_seq_byte(d) for (_, d, _) in self.tr.sent if b"STATQ" in d]
         b = self.spa.struct.status_block
@@ -203,6 +237,22 @@ def run_history(ctx, hist, block0, lines, impl_ans, label):
                     impl_ans.append(None)
                 op = f"refresh {e[3]} {hx(e[4])}"
                 ctx.hist("ops", "busy-window")
+            elif e[0] == "wire":
+                b1 = mk_statp(e[1])
+                nstatp += 1
+                ref = ref_apply(ref, e[1])
+                ref = ref[:e[2]] + e[3] + ref[e[2] + len(e[3]):]
+                err = await a.wire_refresh(b1, e[2], e[3], (e[4] if len(e) > 4 else 150) / 1000.0, (e[5] if len(e) > 5 else 0) / 1000.0)
+                try:
+                    s.statp(b1)
+                    s.refresh(e[2], e[3])
+                except Exception as ex:  # noqa
+                    results["sync_exc"] = repr(ex)
+                for name in ("a", "s"):
+                    lines.append(f"{name} statp {hx(b1)}")
+                    impl_ans.append(None)
+                op = f"refresh {e[2]} {hx(e[3])}"
+                ctx.hist("ops", "wire-refresh")
             elif e[0] == "statp":
                 bodyb = mk_statp(e[1])
                 nstatp += 1
@@ -248,6 +298,8 @@ def run_history(ctx, hist, block0, lines, impl_ans, label):
 
 
 def ev_json(ev):
+    if ev[0] == "wire":
+        return ["wire", mk_statp(ev[1]), ev[2], ev[3]] + list(ev[4:])
     if ev[0] == "busy":
         return ["busy", mk_statp(ev[1]), mk_statp(ev[2]), ev[3], ev[4]]
     if ev[0] == "statp":
@@ -314,17 +366,22 @@ def replay(inp):
     from common import Ctx
     ctx = Ctx("C05", "quick", 0)
     hist = []
+
+    def recs_of(hexbody):
+        body = bytes.fromhex(hexbody)
+        out, i = [], 1
+        for _ in range(body[0]):
+            pos = struct.unpack(">H", body[i:i + 2])[0]
+            out.append((pos, body[i + 2:i + 4]))
+            i += 4
+        return out
     for ev in inp["history"]:
         if ev[0] == "statp":
-            body = bytes.fromhex(ev[1])
-            n = body[0]
-            recs = []
-            i = 1
-            for _ in range(n):
-                pos = struct.unpack(">H", body[i:i + 2])[0]
-                recs.append((pos, body[i + 2:i + 4]))
-                i += 4
-            hist.append(("statp", recs))
+            hist.append(("statp", recs_of(ev[1])))
+        elif ev[0] == "wire":
+            hist.append(("wire", recs_of(ev[1]), ev[2], bytes.fromhex(ev[3])) + tuple(ev[4:]))
+        elif ev[0] == "busy":
+            hist.append(("busy", recs_of(ev[1]), recs_of(ev[2]), ev[3], bytes.fromhex(ev[4])))
         else:
             hist.append(("refresh", ev[1], bytes.fromhex(ev[2])))
     run_history(ctx, hist, bytes.fromhex(inp["block0"]), [], [], "replay")
